@@ -207,8 +207,12 @@ func StartPeer() (*Peer, error) {
 		return nil, fmt.Errorf("peer: %s %s", st, rest)
 	}
 	p.Pid, _ = strconv.Atoi(rest)
+	peerPids.Store(p.Pid, true)
 	return p, nil
 }
+
+// the processes whose locks FileLocks reports: this one and every live peer
+var peerPids sync.Map
 
 // Do sends one command; returns status (ok | busy | err) and the rest
 func (p *Peer) Do(cmd string) (string, string) {
@@ -238,6 +242,7 @@ func (p *Peer) Stop() {
 	if p == nil || p.cmd == nil {
 		return
 	}
+	peerPids.Delete(p.Pid)
 	p.in.WriteString("quit\n")
 	p.in.Flush()
 	p.cmd.Process.Kill()
@@ -259,15 +264,75 @@ const (
 	sqSharedN  = 510
 )
 
-// FileLocks returns the POSIX locks on the file from /proc/locks. One read()
-// system call on /proc/locks is one traversal of the kernel's lock list under
-// its lock, i.e. an atomic snapshot - but only for what fits the kernel's
-// 4 KB chunk; a longer list continues by position in the next read() and can
-// skip entries when other locks come and go meanwhile. So: read with single
-// system calls; a snapshot is exact when the whole list came in one chunk.
-// Otherwise (long list) repeat until two consecutive unions agree: the locks
-// of THIS file are stable while we look (all its participants are parked).
+// FileLocks returns the POSIX locks that this process and its peers hold on the file. Source:
+// /proc/<pid>/fdinfo/<fd> of every descriptor of those processes that refers to the file. The kernel
+// writes the "lock:" lines of one descriptor while it holds the lock list of that one inode, so every
+// descriptor's list is an exact snapshot and it is a handful of lines - unlike /proc/locks, the list of
+// every lock on the machine, which comes in 4 KB chunks that continue by position: under heavy lock
+// traffic from other programs an entry can be skipped by every one of many reads (seen as a false
+// "process holds no lock" with 30 other checks running). /proc/locks remains the fallback for a process
+// whose descriptors cannot be listed.
 func FileLocks(path string) ([]KLock, error) {
+	var st syscall.Stat_t
+	if err := syscall.Stat(path, &st); err != nil {
+		return nil, err
+	}
+	pids := []int{os.Getpid()}
+	peerPids.Range(func(k, _ interface{}) bool { pids = append(pids, k.(int)); return true })
+	var out []KLock
+	for _, pid := range pids {
+		ls, err := fdinfoLocks(pid, &st)
+		if err != nil {
+			if pid != os.Getpid() {
+				continue // the peer is gone: it holds nothing
+			}
+			return fileLocksProc(path)
+		}
+		out = append(out, ls...)
+	}
+	return out, nil
+}
+
+// fdinfoLocks: the POSIX locks process pid holds on the inode, through any of its descriptors
+func fdinfoLocks(pid int, st *syscall.Stat_t) ([]KLock, error) {
+	dir := fmt.Sprintf("/proc/%d/fd", pid)
+	ents, err := os.ReadDir(dir)
+	if err != nil {
+		return nil, err
+	}
+	var out []KLock
+	for _, e := range ents {
+		var fst syscall.Stat_t
+		if err := syscall.Stat(dir+"/"+e.Name(), &fst); err != nil || fst.Ino != st.Ino || fst.Dev != st.Dev {
+			continue
+		}
+		b, err := os.ReadFile(fmt.Sprintf("/proc/%d/fdinfo/%s", pid, e.Name()))
+		if err != nil {
+			continue // closed meanwhile
+		}
+		for _, line := range strings.Split(string(b), "\n") {
+			// lock:	1: POSIX  ADVISORY  READ 6274 fe:00:15802453 1073741826 1073741835
+			f := strings.Fields(line)
+			if len(f) < 9 || f[0] != "lock:" || f[2] != "POSIX" {
+				continue
+			}
+			s, _ := strconv.ParseInt(f[7], 10, 64)
+			e := int64(-1)
+			if f[8] != "EOF" {
+				e, _ = strconv.ParseInt(f[8], 10, 64)
+			}
+			out = append(out, KLock{Write: f[4] == "WRITE", Pid: pid, Start: s, End: e})
+		}
+	}
+	return out, nil
+}
+
+// fileLocksProc is the former source, /proc/locks: one read() system call is one traversal of the
+// kernel's lock list under its lock, i.e. an atomic snapshot - but only for what fits the kernel's
+// 4 KB chunk; a longer list continues by position in the next read() and can skip entries when other
+// locks come and go meanwhile. A snapshot is exact when the whole list came in one chunk; otherwise
+// the union of many reads is taken.
+func fileLocksProc(path string) ([]KLock, error) {
 	seen := map[KLock]bool{}
 	var out []KLock
 	quiet := 0
@@ -279,9 +344,6 @@ func FileLocks(path string) ([]KLock, error) {
 		if atomic {
 			return ls, nil
 		}
-		// the list did not fit one chunk (other checks or programs on this machine hold many locks): an entry
-		// can be skipped by one read when the list changes between two chunks. The locks of THIS file do not
-		// change while we look, so take the union of many reads and stop after 10 reads in a row that add nothing.
 		added := false
 		for _, l := range ls {
 			if !seen[l] {
